@@ -409,7 +409,8 @@ def sendSendReset (s : Streams) (id : Nat) (reason : Reason) (init : Initiator) 
   let st := s.stream id
   let isReset := st.state.isReset
   let isClosed := st.state.isClosed
-  let isEmpty := st.pendingSend.isEmpty
+  -- (what is left of a DATA frame held by the codec still counts as unsent)
+  let isEmpty := st.pendingSend.isEmpty && st.bufferedSendData == 0
   if isReset then s
   else
     let s := s.modStreamW id fun st => st.setReset reason init
